@@ -181,6 +181,9 @@ def _c08():
         sw = [{"prog": prog_str(t), "reuse": 1} for t in thread_programs(alpha, 2, 3, keep=lambda c: sum(len(th) for th in c) >= 3)]
         legs.append(sweep("sweep-%s-reuse" % kind, "c08_mutex", (2, 3), sw, {"kind": kind}, flags=("-fp", "-hb"), what="%s: every thread keeps one scoped_lock object for all its sections (the queue node in it is reused after release): every pair of section sequences of length 1-3, at least 3 sections in total" % kind,
                           tiers=("quick", "thorough") if kind == "queuing" else ("thorough",)))
+    for kind in ("rw",):   # the sleeping reader-writer mutex (the spinning ones cannot lose a wake-up)
+        for i, pr in enumerate(("E|R", "E|R|R", "E|R,R")):
+            legs.append(leg("%s-downgrade-wakes-%d" % (kind, i), "c08_mutex", (2, 3), {"kind": kind, "prog": pr}, flags=("-fp", "-hb"), what="%s: %s - a writer downgrades and keeps the read lock until the readers waiting in lock_shared got in (they must be let in / woken by the downgrade itself)" % (kind, pr)))
     for name, prm in [("addr-mutex-ba", {"kind": "mutex", "order": "ba", "unlock": "ab"}), ("addr-mutex-ab", {"kind": "mutex", "order": "ab", "unlock": "ba"}),
                       ("addr-rw-ba", {"kind": "rw", "order": "ba", "unlock": "ab"}), ("addr-rw-reader", {"kind": "rw", "order": "ba", "unlock": "ab", "reader": 1})]:
         legs.append(leg(name, "c02_addr", (2, 3), prm, what="no lost grant across objects: two mutexes whose addresses share an address-waiter bucket, one sleeper each; unlocking one must wake its own sleeper"))
@@ -361,6 +364,8 @@ PROPS["C12"] = {
                    "it began exactly once and no element more often than it can exist, ordered containers iterate in comparator order.",
     "legs": [
         leg("umap-same-key", "c12_assoc", (2, 3), {"kind": "umap", "prog": "I7|I7|T"}, what="two inserts of one key + traversal", weight=2.0),
+        leg("uset-same-key", "c12_assoc", (2, 3), {"kind": "uset", "prog": "I7|I7|I7"}, what="set: three inserts of one key passed as rvalues (the key type's move constructor leaves a moved-from key that no longer compares equal, like std::string): the retry after a lost CAS must not compare against the moved-from key"),
+        leg("oset-same-key", "c12_assoc", (2, 3), {"kind": "oset", "lv": "2312", "prog": "I7|I7|I7"}, what="ordered set: same"),
         leg("umap-one-bucket", "c12_assoc", (2, 3), {"kind": "umap", "hash": "const", "prekeys": "3,5", "prog": "I7|I9|T,F7"}, what="constant hash: all keys adjacent in split order"),
         leg("umap-doubling", "c12_assoc", (2, 2), {"kind": "umap", "pre": 32, "prog": "I8|I16|T"}, what="window crosses the 32-element table doubling; lazy init_bucket", weight=2.0),
         leg("uset-doubling", "c12_assoc", (2, 2), {"kind": "uset", "pre": 32, "prog": "I8,F8|M24|N8,T"}, what="set: doubling + find/contains", weight=2.0),
@@ -470,6 +475,9 @@ def _c02():
     L.append(leg("bq-failed-push2", "c09_queue", (2, 2), {"prog": "Q|Q|P1,P2,P3", "bounded": 1, "cap": 4, "throwat": 2}, what="two sleeping pops, the second of three pushes fails"))
     L.append(leg("mutex-sleep", "c08_mutex", (2, 3), {"kind": "mutex", "prog": "W,W|W|W"}, what="tbb::mutex futex sleeping path"))
     L.append(leg("rw_mutex-sleep", "c08_mutex", (2, 3), {"kind": "rw", "prog": "W|R,W|U"}, what="tbb::rw_mutex sleeping path"))
+    for i, pr in enumerate(("E|R", "E|R|R", "E|R,R")):
+        L.append(leg("rw_mutex-downgrade-wakes-%d" % i, "c08_mutex", (2, 3), {"kind": "rw", "prog": pr}, flags=("-fp", "-hb"), what="tbb::rw_mutex %s: readers asleep in lock_shared while a writer holds the lock; the writer downgrades and keeps the read lock until they got in: the downgrade itself must wake them" % pr))
+    L.append(leg("rt-enqueue_prio_limit1", "c02_rt", (2, 3), {"kind": "enqueue_prio_limit1"}, what="max_allowed_parallelism 1 (soft limit 0) and two arenas of different priority: the main thread works inside the high-priority arena (spawned work, no enqueue) and enqueues a task into the low-priority arena, where nobody waits: the mandatory worker must still come and run it"))
     for k, what, b in [("wait_sleep", "external waiter asleep in task_group::wait while a worker finishes the last task", (2, 3)),
                        ("enqueue", "enqueue with nobody waiting; worker spinning", (3, 4)), ("enqueue2", "second enqueue meets a worker that is leaving / going to sleep", (2, 3)),
                        ("enqueue1", "arena with max_concurrency 1 (mandatory worker)", (3, 4)), ("enqueue_limit1", "max_allowed_parallelism 1: soft limit 0, mandatory concurrency", (3, 3)),
@@ -614,6 +622,8 @@ PROPS["C17"] = {
         leg("mt-foreign-aligned", "c17_mt", (3, 4), {"kind": "foreign", "size": 1500, "align": 256, "after": 1792, "nown": 4}, what="blocks from scalable_aligned_malloc(1500, 256) (user address inside a 1792-byte slot) freed by another thread while the owner allocates full-slot objects"),
         leg("mt-foreign-aligned2", "c17_mt", (3, 4), {"kind": "foreign", "size": 3000, "align": 1024, "after": 4032, "nown": 3}, what="same for the 4032-byte fitting bin, alignment 1024"),
         leg("mt-foreign-aligned3", "c17_mt", (3, 4), {"kind": "foreign", "size": 2000, "align": 128, "after": 2688, "nown": 4}, what="same for the 2688-byte bin, alignment 128"),
+        leg("mt-clean", "c17_mt", (3, 4), {"kind": "clean", "size": 64, "nown": 3}, what="the owner runs scalable_allocation_command(TBBMALLOC_CLEAN_THREAD_BUFFERS), mallocs, runs TBBMALLOC_CLEAN_ALL_BUFFERS, mallocs, while another thread frees three of its blocks (mailbox / public free list vs the clean-up) and mallocs"),
+        leg("mt-clean-2slabs", "c17_mt", (2, 3), {"kind": "clean", "size": 8000, "nown": 3}, what="same with one object per slab (three slabs in the mailbox)"),
         leg("mt-exit", "c17_mt", (3, 4), {"kind": "exit", "size": 48}, what="owner thread shuts down with live blocks; another thread frees them and allocates (orphan adoption)"),
         leg("mt-last", "c17_mt", (4, 5), {"kind": "last", "size": 8000}, what="foreign free of the only object of a slab vs owner malloc"),
         leg("mt-large", "c17_mt", (3, 4), {"kind": "large", "size": 100000}, what="large objects: foreign free + malloc through the large-object cache"),
@@ -713,9 +723,9 @@ PROPS["C07"] = {
 
 # ------------------------------------------------------------------------------------------------ C14 / C15 (flow graph)
 def _c14():
-    L = [leg("vtbb-graphs", "c14_flow", (4, 6), {}, flags=(), what="672 graphs: chains with 4 buffer policies x concurrency limits, buffering senders -> rejecting nodes, fan-out/fan-in, limiter feedback cycle, "
+    L = [leg("vtbb-graphs", "c14_flow", (4, 6), {}, flags=(), what="888 graphs: lightweight nodes whose result nobody takes (sink / busy rejecting successor), chains with 4 buffer policies x concurrency limits, buffering senders -> rejecting nodes, fan-out/fan-in, limiter feedback cycle, "
              "continue_node, multifunction_node, input_node, async_node with a foreign completion, exception / cancel at every body invocation", weight=3.0)]
-    L.append(leg("vtbb-graphs-nested", "c14_flow", (3, 5), {"nested": 1}, flags=(), what="the same 672 graphs; in addition every task-based body may re-enter the dispatcher on its own worker (a nested wait inside the body runs another graph task)", weight=2.0))
+    L.append(leg("vtbb-graphs-nested", "c14_flow", (3, 5), {"nested": 1}, flags=(), what="the same 888 graphs; in addition every task-based body may re-enter the dispatcher on its own worker (a nested wait inside the body runs another graph task)", weight=2.0))
     for k, b, what in [("ext2", (1, 2), "two external threads + main try_put into one serial queueing function_node"), ("ext2rej", (1, 2), "same, rejecting node: a rejected put is reported, an accepted one processed once"),
                        ("pull", (1, 2), "queue_node -> rejecting serial node, puts from two threads: push/pull edge switching"), ("pull2", (1, 2), "queue_node -> two rejecting serial nodes"),
                        ("bufsplit", (1, 2), "buffer_node -> two rejecting nodes: each message to exactly one"), ("async", (2, 3), "async_node completed by a foreign thread: wait_for_all waits for release_wait")]:
@@ -753,7 +763,8 @@ def _c15():
                        ("limiter_push", (2, 3), "a direct put is in flight inside a slow lightweight successor while the limiter's forward task serves a queued pull-mode predecessor"),
                        ("joinq", (1, 2), "queueing join_node, the two ports fed by two threads"), ("joink", (1, 2), "key_matching join_node, keys arrive in opposite orders"),
                        ("joinr", (1, 2), "reserving join_node behind two queue_nodes"), ("seq", (1, 2), "sequencer_node fed out of order by two threads"),
-                       ("wonce", (2, 3), "write_once_node: two threads put the first value at once; one successor before, one after"), ("owrite", (2, 3), "overwrite_node written by two threads at once")]:
+                       ("wonce", (2, 3), "write_once_node: two threads put the first value at once; one successor before, one after"), ("owrite", (2, 3), "overwrite_node written by two threads at once"),
+                       ("ow_register", (2, 3), "overwrite_node holding a value: one thread attaches a successor while another puts a newer value; the new successor must end up with the latest value")]:
         L.append(leg("rt-" + k, "c14_rt", b, {"kind": k}, what="real scheduler: " + what, weight=2.0))
     return L
 PROPS["C15"] = {
